@@ -13,6 +13,22 @@ def elapsed(t, k):
     return alg.sub(alg.idiv(alg.sub(t.val(k), t.val(alg.sub(k, 1))), 10**9), 0)
 
 
+def _as_time(e, t):
+    """real runs of a grid entry with "tcarrier": the same instants as epoch seconds in that carrier (C10
+    quantifies over time axes "given as datetimes or epoch seconds")"""
+    tc = getattr(e, "tcarrier", None)
+    if getattr(e, "mode", None) != "real" or not tc:
+        return t
+    import numpy as np
+
+    secs = np.asarray(t).astype("datetime64[s]").astype(np.int64)
+    if tc == "list":
+        return [int(v) for v in secs]
+    if tc == "float":
+        return secs.astype(np.float64)
+    return secs.astype(tc)
+
+
 class RateOfChange(Case):
     """params: lens in {'same','differ'}"""
 
@@ -36,10 +52,12 @@ class RateOfChange(Case):
         e.t = mk.times("t", e.m, increasing=self.params.get("order") != "any")
         e.thr = mk.real("thr")
         mk.assume(alg.ge(pval(e.thr), 0))  # a threshold on an absolute rate is non-negative
+        e.mode = mk.mode
+        e.tcarrier = mk.values.get("tcarrier") if mk.mode != "sym" else None
         return e
 
     def call(self, mod, e):
-        return mod.rate_of_change_test(e.x, e.t, e.thr)
+        return mod.rate_of_change_test(e.x, _as_time(e, e.t), e.thr)
 
     def raises(self, e):
         if self.params["lens"] == "same":
@@ -97,6 +115,12 @@ class RateOfChange(Case):
             for xs, ts in (([None, 2, 3], [20, 0, 10]), ([5, None, 6, 7], [10, 20, 30, 0]), ([1, 2, None, 4, None], [30, 40, 0, 10, 20]), ([None, 1, 9, 1], [40, 10, 20, 30])):
                 for thr in (0, H, 5):
                     yield {"n": len(xs), "x": list(xs), "t": list(ts), "thr": thr, "keep": 1}
+        if self.params["lens"] == "same" and self.params.get("order") != "any":
+            # the same instants handed over as epoch seconds in the carriers files and users have them in
+            for tc in ("int32", "uint32", "int64", "float", "list"):
+                for xs, ts in (([1, 2, 9, 3], [1700000000, 1700000010, 1700000020, 1700003620]), ([0, 5, None, 5, 0], [10, 12, 16, 17, 3600])):
+                    for thr in (0, H, 1):
+                        yield {"n": len(xs), "x": list(xs), "t": list(ts), "thr": thr, "tcarrier": tc, "keep": 1}
         if self.params["lens"] == "same":
             # float32 data whose differences float32 cannot hold (2**24 + 2 next to 1): the exact step is
             # 16777217, in float32 arithmetic it would be 16777216; thresholds between and on the two
@@ -133,6 +157,8 @@ class Speed(Case):
         e.t = mk.times("t", e.nt)
         e.sus = mk.real("sus")
         e.fail = mk.real("fail")
+        e.mode = mk.mode
+        e.tcarrier = mk.values.get("tcarrier") if mk.mode != "sym" else None
         return e
 
     def stubs(self, T):
@@ -142,7 +168,7 @@ class Speed(Case):
         return [utils_c.Gcd()]
 
     def call(self, mod, e):
-        return mod.speed_test(e.lon, e.lat, e.t, e.sus, e.fail)
+        return mod.speed_test(e.lon, e.lat, _as_time(e, e.t), e.sus, e.fail)
 
     def raises(self, e):
         if self.params["lens"] == "same":
@@ -199,6 +225,9 @@ class Speed(Case):
                             v["t"] = st[: n + 1]
                         yield v
         if self.params["lens"] == "same":
+            for tc in ("int32", "uint32", "int64", "float", "list"):
+                for sus, fail in ((1, 100), (50000, 10)):
+                    yield {"n": 4, "lon": [0, 10, 10, 0], "lat": [0, 20, 20.5, 0], "t": [1700000000, 1700000010, 1700003610, 1700090010], "sus": sus, "fail": fail, "tcarrier": tc, "keep": 1}
             # thresholds exactly at, and one float next to, the real speed of a hop (unit time steps, so the
             # speed is the geodesic length itself): the boundary of each comparison becomes replayable
             import math
